@@ -6,18 +6,42 @@ from vf.ev_spec import SpecFun
 SPECFUNS = {}
 
 
+import re
+
+# default property tags of clauses, by label (a clause may override with an explicit third element)
+AUTO_TAGS = [
+    (r"^(map|start-nonempty|ends-nonblank|underline-nonblank|line$|last-nonblank|prev-nonblank|cur-nonblank)", ["C03"]),
+    (r"^(markup|content|info|marker|strip1)", ["C08"]),
+    (r"^(three-tokens|one-token|types?$|nesting|levels?$|block$|children|tags)", ["C02"]),
+    (r"^(silent-pure|fail-pure|parentType|always-true|progress)", ["C07", "C01"]),
+    (r"^needs-html", ["C04", "C10"]),
+]
+
+
+def auto_tag(label, default):
+    for rx, props in AUTO_TAGS:
+        if re.search(rx, label):
+            return props
+    return default
+
+
 def make_adder(registry):
     from vf.verify import expand_defs
 
     def add(c):
+        def tag(cl):
+            return [t if len(t) == 3 else (t[0], t[1], auto_tag(t[0], list(c.props))) for t in cl]
+
+        c.ensures = tag(c.ensures)
+        c.raises = {k: tag(v) for k, v in c.raises.items()}
         registry[c.qualname] = expand_defs(c)
         return c
 
     return add
 
 
-def specfun(name, source, result="int"):
-    SPECFUNS[name] = SpecFun(name, source, result)
+def specfun(name, source, result="int", axiom=None, reads=None, quant=None):
+    SPECFUNS[name] = SpecFun(name, source, result, axiom, reads, quant)
 
 
 specfun("CountCh", '''
